@@ -458,4 +458,312 @@ theorem WF.run {t : Timer δ ε} (h : WF t) (ops : List (Op δ ε)) : WF (t.run 
   | nil => exact h
   | cons op ops ih => exact ih (h.step op)
 
+/-! ### what the operations do to entries that exist already -/
+
+theorem fireOne_pending {t : Timer δ ε} (h : WF t) {x : Entry ε} {rest : List (Entry ε)}
+    (hp : t.pending = x :: rest) : (fireOne t x rest).pending = rest := by
+  unfold Rfsm.Timer.fireOne
+  split
+  · rfl
+  · rename_i sid hsid
+    split
+    · rfl
+    · rename_i g hg
+      have hown := h.own x (by rw [hp]; exact List.mem_cons_self ..) sid hsid
+      rw [hg] at hown
+      cases hown
+      have hn := h.pnodup
+      rw [hp] at hn
+      exact dropGuard_of_not_mem (fun y hy => ((List.pairwise_cons.1 hn).1 y hy).symm)
+
+theorem fireOne_log (t : Timer δ ε) (x : Entry ε) (rest : List (Entry ε)) :
+    (fireOne t x rest).log = t.log ++ [⟨t.now, true, x⟩] := by
+  unfold Rfsm.Timer.fireOne
+  split
+  · rfl
+  · split <;> rfl
+
+theorem fireOne_now (t : Timer δ ε) (x : Entry ε) (rest : List (Entry ε)) :
+    (fireOne t x rest).now = t.now ∧ (fireOne t x rest).nextSeq = t.nextSeq ∧
+    (fireOne t x rest).alive = t.alive ∧ (fireOne t x rest).data = t.data := by
+  unfold Rfsm.Timer.fireOne
+  split
+  · simp
+  · split <;> simp
+
+/-- delivered by the timer thread -/
+def Delivered (t : Timer δ ε) (e : Entry ε) : Prop := ∃ d ∈ t.log, d.entry = e ∧ d.viaTimer = true
+
+/-- nothing that exists is ever modified: a later state's deliveries and pending entries are the
+earlier state's, or newer -/
+structure Frame (t t' : Timer δ ε) : Prop where
+  log : ∀ d ∈ t'.log, d ∈ t.log ∨ (d.entry ∈ t.pending ∧ d.viaTimer = true) ∨ t.nextSeq ≤ d.entry.seq
+  pend : ∀ e ∈ t'.pending, e ∈ t.pending ∨ t.nextSeq ≤ e.seq
+  next : t.nextSeq ≤ t'.nextSeq
+  mono : ∀ d ∈ t.log, d ∈ t'.log
+  now : t.now ≤ t'.now
+
+theorem Frame.refl (t : Timer δ ε) : Frame t t :=
+  ⟨fun _ hd => Or.inl hd, fun _ he => Or.inl he, Nat.le_refl _, fun _ hd => hd, Nat.le_refl _⟩
+
+theorem Frame.trans {a b c : Timer δ ε} (h1 : Frame a b) (h2 : Frame b c) : Frame a c := by
+  constructor
+  · intro d hd
+    rcases h2.log d hd with hd | ⟨hd, hv⟩ | hd
+    · exact h1.log d hd
+    · rcases h1.pend _ hd with hd | hd
+      · exact Or.inr (Or.inl ⟨hd, hv⟩)
+      · exact Or.inr (Or.inr hd)
+    · exact Or.inr (Or.inr (Nat.le_trans h1.next hd))
+  · intro e he
+    rcases h2.pend e he with he | he
+    · exact h1.pend e he
+    · exact Or.inr (Nat.le_trans h1.next he)
+  · exact Nat.le_trans h1.next h2.next
+  · intro d hd; exact h2.mono d (h1.mono d hd)
+  · exact Nat.le_trans h1.now h2.now
+
+theorem Frame.fireOne (t : Timer δ ε) {x : Entry ε} {rest : List (Entry ε)}
+    (hp : t.pending = x :: rest) : Frame t (fireOne t x rest) := by
+  have hsub : ∀ y ∈ (Rfsm.Timer.fireOne t x rest).pending, y ∈ rest := by
+    intro y hy
+    unfold Rfsm.Timer.fireOne at hy
+    split at hy
+    · exact hy
+    · split at hy
+      · exact hy
+      · exact (mem_dropGuard.1 hy).1
+  constructor
+  · intro d hd
+    rw [fireOne_log] at hd
+    rcases List.mem_append.1 hd with hd | hd
+    · exact Or.inl hd
+    · simp only [List.mem_singleton] at hd
+      subst hd
+      exact Or.inr (Or.inl ⟨by rw [hp]; exact List.mem_cons_self .., rfl⟩)
+  · intro y hy; rw [hp]; exact Or.inl (List.mem_cons_of_mem _ (hsub y hy))
+  · rw [(fireOne_now t x rest).2.1]; exact Nat.le_refl _
+  · intro d hd; rw [fireOne_log]; exact List.mem_append_left _ hd
+  · rw [(fireOne_now t x rest).1]; exact Nat.le_refl _
+
+theorem Frame.fireLoop (t : Timer δ ε) (f : Nat) : Frame t (fireLoop f t) := by
+  induction f generalizing t with
+  | zero => exact Frame.refl t
+  | succ f ih =>
+    unfold Rfsm.Timer.fireLoop
+    split
+    · exact Frame.refl t
+    · rename_i x rest hp
+      split
+      · exact (Frame.fireOne t hp).trans (ih _)
+      · exact Frame.refl t
+
+theorem Frame.step (t : Timer δ ε) (op : Op δ ε) : Frame t (t.step op) := by
+  cases op with
+  | assign f =>
+    show Frame t (t.assign f)
+    unfold Timer.assign
+    split
+    · exact Frame.refl t
+    · exact ⟨fun _ hd => Or.inl hd, fun _ he => Or.inl he, Nat.le_refl _, fun _ hd => hd, Nat.le_refl _⟩
+  | tick t' =>
+    show Frame t (t.tick t')
+    exact ⟨fun _ hd => Or.inl hd, fun _ he => Or.inl he, Nat.le_refl _, fun _ hd => hd, Nat.le_max_left _ _⟩
+  | terminate =>
+    show Frame t t.terminate
+    exact ⟨fun _ hd => Or.inl hd, fun _ he => by simp [Timer.terminate] at he, Nat.le_refl _, fun _ hd => hd, Nat.le_refl _⟩
+  | wake =>
+    show Frame t t.wake
+    unfold Timer.wake
+    split
+    · exact Frame.refl t
+    · exact Frame.fireLoop t _
+  | cancel id =>
+    show Frame t (t.cancel id)
+    unfold Timer.cancel
+    split
+    · exact Frame.refl t
+    · split
+      · exact Frame.refl t
+      · exact ⟨fun _ hd => Or.inl hd, fun e he => Or.inl (mem_dropGuard.1 he).1, Nat.le_refl _, fun _ hd => hd, Nat.le_refl _⟩
+  | send id tg d mk =>
+    show Frame t (t.send id tg d mk)
+    unfold Timer.send
+    split
+    · exact Frame.refl t
+    split
+    · exact ⟨fun _ hd => Or.inl hd, fun _ he => Or.inl he, Nat.le_refl _, fun _ hd => hd, Nat.le_refl _⟩
+    split
+    · exact ⟨fun _ hd => Or.inl hd, fun _ he => Or.inl he, Nat.le_refl _, fun _ hd => hd, Nat.le_refl _⟩
+    simp only
+    split
+    · refine ⟨?_, fun _ he => Or.inl he, Nat.le_succ _, fun _ hd => List.mem_append_left _ hd, Nat.le_refl _⟩
+      intro x hx
+      rcases List.mem_append.1 hx with hx | hx
+      · exact Or.inl hx
+      · simp only [List.mem_singleton] at hx
+        subst hx; exact Or.inr (Or.inr (Nat.le_refl _))
+    · have key : ∀ x ∈ insertEntry (⟨t.now + d.toNat, t.nextSeq, id, tg, mk t.data⟩ : Entry ε) t.pending,
+          x ∈ t.pending ∨ t.nextSeq ≤ x.seq := by
+        intro x hx
+        rcases mem_insertEntry.1 hx with rfl | hx
+        · exact Or.inr (Nat.le_refl _)
+        · exact Or.inl hx
+      cases id with
+      | none => exact ⟨fun _ hd => Or.inl hd, key, Nat.le_succ _, fun _ hd => hd, Nat.le_refl _⟩
+      | some sid =>
+        refine ⟨fun _ hd => Or.inl hd, ?_, Nat.le_succ _, fun _ hd => hd, Nat.le_refl _⟩
+        intro x hx
+        simp only at hx
+        split at hx
+        · exact key x (mem_dropGuard.1 hx).1
+        · exact key x hx
+
+theorem Frame.run (t : Timer δ ε) (ops : List (Op δ ε)) : Frame t (t.run ops) := by
+  induction ops generalizing t with
+  | nil => exact Frame.refl t
+  | cons op ops ih => exact (Frame.step t op).trans (ih _)
+
+/-- `op` neither cancels, overwrites nor discards the pending entry `e` -/
+def Safe (e : Entry ε) : Op δ ε → Prop
+  | .send (some sid) tg d _ => ¬ (0 < d ∧ tg ≠ internalTarget ∧ e.sendid = some sid)
+  | .cancel id => e.sendid ≠ some id
+  | .terminate => False
+  | _ => True
+
+theorem fire_keeps {t : Timer δ ε} (h : WF t) {e : Entry ε} (he : e ∈ t.pending) (f : Nat) :
+    e ∈ (fireLoop f t).pending ∨ Delivered (fireLoop f t) e := by
+  induction f generalizing t with
+  | zero => exact Or.inl he
+  | succ f ih =>
+    unfold Rfsm.Timer.fireLoop
+    split
+    · exact Or.inl he
+    · rename_i x rest hp
+      split
+      · rename_i hdue
+        have hw := h.fireOne hp hdue
+        rw [hp] at he
+        rcases List.mem_cons.1 he with rfl | he
+        · right
+          have hm := (Frame.fireLoop (fireOne t e rest) f).mono
+          refine ⟨⟨t.now, true, e⟩, hm _ ?_, rfl, rfl⟩
+          rw [fireOne_log]; simp
+        · exact ih hw (by rw [fireOne_pending h hp]; exact he)
+      · exact Or.inl he
+
+theorem fire_due {t : Timer δ ε} (h : WF t) {e : Entry ε} (he : e ∈ t.pending) (hdue : e.due ≤ t.now)
+    (f : Nat) (hf : t.pending.length ≤ f) : Delivered (fireLoop f t) e := by
+  induction f generalizing t with
+  | zero =>
+    have : t.pending = [] := List.eq_nil_of_length_eq_zero (Nat.le_zero.1 hf)
+    rw [this] at he; cases he
+  | succ f ih =>
+    unfold Rfsm.Timer.fireLoop
+    split
+    · rename_i hp; rw [hp] at he; cases he
+    · rename_i x rest hp
+      have hs := h.sorted
+      rw [hp] at hs he hf
+      have hxdue : x.due ≤ t.now := by
+        rcases List.mem_cons.1 he with rfl | he'
+        · exact hdue
+        · have := (List.pairwise_cons.1 hs).1 e he'
+          unfold Entry.lt at this; omega
+      rw [if_pos hxdue]
+      have hw := h.fireOne hp hxdue
+      rcases List.mem_cons.1 he with rfl | he'
+      · have hm := (Frame.fireLoop (fireOne t e rest) f).mono
+        refine ⟨⟨t.now, true, e⟩, hm _ ?_, rfl, rfl⟩
+        rw [fireOne_log]; simp
+      · refine ih hw (by rw [fireOne_pending h hp]; exact he') ?_ ?_
+        · rw [(fireOne_now t x rest).1]; exact hdue
+        · rw [fireOne_pending h hp]; simp at hf; omega
+
+theorem keep_step {t : Timer δ ε} (h : WF t) {e : Entry ε} (he : e ∈ t.pending) (op : Op δ ε)
+    (hs : Safe e op) : e ∈ (t.step op).pending ∨ Delivered (t.step op) e := by
+  have halive : t.alive = true := by
+    cases ha : t.alive with
+    | true => rfl
+    | false => have := h.dead ha; rw [this] at he; cases he
+  cases op with
+  | assign f =>
+    left
+    show e ∈ (t.assign f).pending
+    unfold Timer.assign
+    split <;> exact he
+  | tick t' => exact Or.inl he
+  | terminate => exact absurd hs (by simp [Safe])
+  | wake =>
+    show e ∈ t.wake.pending ∨ Delivered t.wake e
+    unfold Timer.wake
+    rw [if_neg (by simp [halive])]
+    exact fire_keeps h he _
+  | cancel id =>
+    left
+    show e ∈ (t.cancel id).pending
+    unfold Timer.cancel
+    rw [if_neg (by simp [halive])]
+    split
+    · exact he
+    · rename_i g hg
+      refine mem_dropGuard.2 ⟨he, ?_⟩
+      intro hc
+      exact hs (h.gid id g hg e he hc)
+  | send id tg d mk =>
+    left
+    show e ∈ (t.send id tg d mk).pending
+    unfold Timer.send
+    rw [if_neg (by simp [halive])]
+    split
+    · exact he
+    split
+    · exact he
+    simp only
+    split
+    · exact he
+    · rename_i hneg hint hz
+      have hin : e ∈ insertEntry (⟨t.now + d.toNat, t.nextSeq, id, tg, mk t.data⟩ : Entry ε) t.pending :=
+        mem_insertEntry.2 (Or.inr he)
+      cases id with
+      | none => exact hin
+      | some sid =>
+        simp only
+        split
+        · rename_i old hold
+          refine mem_dropGuard.2 ⟨hin, ?_⟩
+          intro hc
+          have hsid := h.gid sid old hold e he hc
+          apply hs
+          refine ⟨by omega, ?_, hsid⟩
+          intro htg
+          exact hint ⟨by omega, htg⟩
+        · exact hin
+
+theorem keep_run {t : Timer δ ε} (h : WF t) {e : Entry ε} (he : e ∈ t.pending) (ops : List (Op δ ε))
+    (hs : ∀ op ∈ ops, Safe e op) : e ∈ (t.run ops).pending ∨ Delivered (t.run ops) e := by
+  induction ops generalizing t with
+  | nil => exact Or.inl he
+  | cons op ops ih =>
+    rcases keep_step h he op (hs op (List.mem_cons_self ..)) with he' | ⟨d, hd, hde⟩
+    · exact ih (h.step op) he' (fun o ho => hs o (List.mem_cons_of_mem _ ho))
+    · right
+      exact ⟨d, (Frame.run (t.step op) ops).mono d hd, hde⟩
+
+theorem Safe.of_harmless {e : Entry ε} {op : Op δ ε} (h : op.harmlessFor e.sendid = true) : Safe e op := by
+  cases op with
+  | send id tg d mk =>
+    cases id with
+    | none => trivial
+    | some sid =>
+      intro ⟨hd, _, hsid⟩
+      simp [Op.harmlessFor, hd, hsid] at h
+  | cancel id =>
+    intro hc
+    simp [Op.harmlessFor, hc] at h
+  | terminate => simp [Op.harmlessFor] at h
+  | assign f => trivial
+  | tick t' => trivial
+  | wake => trivial
+
 end Rfsm.Timer
